@@ -625,11 +625,6 @@ cgsisx(superlu_options_t *options, SuperMatrix *A, int *perm_c, int *perm_r,
                 perm_c, perm_r, L, U, Glu, stat, info);
 	utime[FACT] = SuperLU_timer_() - t0;
 
-	if ( lwork == -1 ) {
-	    mem_usage->total_needed = *info - A->ncol;
-	    return;
-	}
-
 	if ( mc64 ) { /* Fold MC64's perm[] into perm_r[]. */
 	    NCformat *Astore = AA->Store;
 	    int_t nnz = Astore->nnz, *rowind = Astore->rowind;
@@ -637,23 +632,34 @@ cgsisx(superlu_options_t *options, SuperMatrix *A, int *perm_c, int *perm_r,
 	    if ((perm_tmp = int32Malloc(2*n)) == NULL)
 		ABORT("SUPERLU_MALLOC fails for perm_tmp[]");
 	    iperm = perm_tmp + n;
-	    for (i = 0; i < n; ++i) perm_tmp[i] = perm_r[perm[i]];
-	    for (i = 0; i < n; ++i) {
-		perm_r[i] = perm_tmp[i];
-		iperm[perm[i]] = i;
+	    for (i = 0; i < n; ++i) iperm[perm[i]] = i;
+	    if ( lwork != -1 && *info <= A->ncol ) { /* factors were computed */
+		for (i = 0; i < n; ++i) perm_tmp[i] = perm_r[perm[i]];
+		for (i = 0; i < n; ++i) perm_r[i] = perm_tmp[i];
 	    }
 
-	    /* Restore A's original row indices. */
+	    /* Restore A's original row indices, also after a size query or a
+	       memory failure. */
 	    for (i = 0; i < nnz; ++i) rowind[i] = iperm[rowind[i]];
 
 	    SUPERLU_FREE(perm); /* MC64 permutation */
 	    SUPERLU_FREE(perm_tmp);
 	}
+
+	if ( lwork == -1 || *info > A->ncol ) {
+	    /* Size query, or memory allocation failure in the factorization:
+	       there are no factors to work with. */
+	    if ( lwork == -1 ) mem_usage->total_needed = *info - A->ncol;
+	    Destroy_CompCol_Permuted(&AC);
+	    if ( A->Stype == SLU_NR ) {
+		Destroy_SuperMatrix_Store(AA);
+		SUPERLU_FREE(AA);
+	    }
+	    return;
+	}
     }
 
     if ( options->PivotGrowth ) {
-	if ( *info > 0 ) return;
-
 	/* Compute the reciprocal pivot growth factor *recip_pivot_growth. */
 	*recip_pivot_growth = cPivotGrowth(A->ncol, AA, perm_c, L, U);
     }
